@@ -11,7 +11,7 @@ PROPS = {
     "C01": {
         "level": "exploration",
         "tests": [
-            {"name": "TestC01", "quick": 1600, "thorough": 30000},
+            {"name": "TestC01", "quick": 4000, "thorough": 60000},
             {"name": "TestC01Ex", "kind": "plain"},
         ],
         "rule": "cases = (data recipe, constructor {NewWriter, 4K window, NewWriterDict}, level -2..9, Write/Flush partition) drawn by rapid, "
@@ -19,6 +19,63 @@ PROPS = {
                 "Oracle: emitted bytes are exactly one complete RFC 1951 stream (reference inflater end position == length), decoded identically by "
                 "the reference inflater, compress/flate and fastgo's Reader; Writer buffers guarded by canaries. "
                 "Non-trivial = at least one data byte and the stream was produced by fastgo's own compressor (not delegated to compress/flate); distinct = distinct case digest.",
+        "assumptions": COMMON_ASSUME,
+    },
+    "C09": {
+        "level": "exploration",
+        "tests": [{"name": "TestC09", "quick": 8000, "thorough": 120000}],
+        "rule": "cases = (data recipe, accelerated setting over flate/gzip/zlib incl. 4K window, Flush offsets, two Write partitions refining the same Flush offsets, zero-length writes) drawn by rapid; "
+                "oracle (metamorphic): both partitions emit byte-for-byte what one Write per Flush segment emits. Non-trivial = the two partitions differ and data is non-empty; distinct = case digest.",
+        "assumptions": COMMON_ASSUME,
+    },
+    "C10": {
+        "level": "exploration",
+        "tests": [{"name": "TestC10", "quick": 8000, "thorough": 120000}],
+        "rule": "cases = (data recipe, flate/gzip/zlib setting at any level incl. Huffman-only, 4K window, dictionary; Write/Flush sequence with Flush first / repeated / with nothing pending / exactly at buffer-full points) drawn by rapid; "
+                "oracle at every Flush: reference inflater on the bytes emitted so far yields exactly the data written so far and stops at a byte-aligned block boundary (verdict TRUNCATED, not CORRUPT); the standard library reader yields the same bytes then io.ErrUnexpectedEOF; after Close the whole container is valid. "
+                "Non-trivial = at least one Flush with data before it and a Write after a Flush, served by fastgo's own compressor.",
+        "assumptions": COMMON_ASSUME,
+    },
+    "C12": {
+        "level": "exploration",
+        "tests": [{"name": "TestC12", "quick": 6000, "thorough": 100000}],
+        "rule": "cases = (setting over flate/gzip/zlib, one or two earlier histories of Write/Flush/Close with sizes that leave compressed-but-unemitted data, optional failing destination, gzip header fields set before; then Reset and a later history) drawn by rapid; "
+                "oracle (model = fresh object): per-call bytes, byte counts and errors after Reset equal those of a newly constructed Writer running the same later history; a closed later stream decodes to the later data. "
+                "Non-trivial = earlier history wrote >=1 byte, later history writes >=1 byte, fastgo's own compressor.",
+        "assumptions": COMMON_ASSUME,
+    },
+    "C14": {
+        "level": "fault_enumeration",
+        "tests": [{"name": "TestC14", "quick": 400, "thorough": 8000}],
+        "rule": "cases = (setting, Write/Flush/Close sequence, error value, short-write size, optional Reset+later history) drawn by rapid; for each case the fault-free run counts the destination calls N and then EVERY k in 1..N (N<=64; stratified sample of first/last/op-boundary/stride otherwise) is injected. "
+                "Oracle: the operation containing call k returns the injected error; every later call returns non-nil; zero destination calls after the failure; no panic; canaries around Writer buffers intact; Reset(good) behaves like a new Writer; the fault-free run yields a complete valid container. "
+                "evaluations = (case, k) pairs. Non-trivial = the failing call happens inside Flush or Close, or k>1; fastgo's own compressor.",
+        "assumptions": COMMON_ASSUME,
+    },
+    "C16": {
+        "level": "exploration",
+        "tests": [
+            {"name": "TestC16", "quick": 2000, "thorough": 40000},
+            {"name": "TestC16Ex", "kind": "plain", "shards": {"quick": 4, "thorough": 4}},
+            {"name": "TestC16Ctor", "kind": "plain"},
+        ],
+        "rule": "exhaustive: every call sequence of length 1..4 (quick) / 1..5 (thorough) over {Write(empty), Write(37), Write(buffer-full+7), Flush, Close, Reset} x 24 settings (flate 4K/32K, gzip, zlib; levels -2,-1,0,1,2,6,9); random sequences up to length 40 beyond; constructor x level in [-5,12]. "
+                "Oracle: a twin standard-library Writer runs the same sequence; no panic; error iff the twin errs; calls after a successful Close emit bytes only if the twin's do; bytes up to the first successful Close are a complete valid container of the data written since the last Reset. "
+                "Non-trivial = sequence contains a call after Close, Flush/Close with nothing written, or a zero-length Write.",
+        "assumptions": COMMON_ASSUME,
+    },
+    "C19": {
+        "level": "exploration",
+        "tests": [{"name": "TestC19", "quick": 6000, "thorough": 100000}],
+        "rule": "cases = (data dominated by planted repeats at distances around 4096/32768/65536 separated by fresh random filler, periodic data with period just past a window, inputs > 64 KiB / > 128 KiB; 4K constructor at levels 1,2,-1,3..9 or ordinary constructor at 1,2,-1; Write/Flush partition) drawn by rapid; "
+                "oracle: maximum match distance in the reference inflater's trace <= 4096 (4K) / 32768, and the stream round-trips. Non-trivial = output contains a match with distance > window/2, or data > 64 KiB. Labels dist==w and no-match-at-all show the bound is approached from both sides.",
+        "assumptions": COMMON_ASSUME,
+    },
+    "C20": {
+        "level": "exploration",
+        "tests": [{"name": "TestC20", "quick": 8000, "thorough": 120000}],
+        "rule": "cases = expansion mode (uniform, near-uniform, Fibonacci-skewed, all-distinct, alternating compressible/incompressible, mixed recipes; sizes around block thresholds; levels -2,-1,1,2; both windows; one or several Writes, one Close, no Flush) and periodic mode (period 1..64, n in {65536,65537,70000,131072,200000,max}; levels 1,2,-1); "
+                "oracle: len(out) <= n + n/32 + 256, resp. <= n/32 + 1200, and the output decodes to the input. Non-trivial = n >= 1. measurements report the worst observed fraction of each bound per setting.",
         "assumptions": COMMON_ASSUME,
     },
 }
@@ -30,5 +87,47 @@ MANIFEST_TEXT = {
         "text": "Generated-input search: every case compresses with fastgo and must yield exactly one complete stream that the reference inflater, compress/flate and fastgo's Reader decode to the input; run at each acceleration level the host can execute. Exploration cannot prove absence; generators are aimed at the buffer/token/block thresholds read from the code.",
         "note": "Trusts compress/flate and the harness's reference inflater (cross-checked on every stream). Dictionary inputs on which Go's own NewWriterDict round trip fails are a recorded known finding and excluded by a stdlib-only predicate.",
         "design_ref": "DESIGN.md section 4, C01",
+    },
+    "C09": {
+        "technique": "property-based testing (rapid), metamorphic relation: same data and Flush offsets under two generated Write partitions must emit identical bytes",
+        "text": "Generated partitions (1-byte writes, zero-length writes, cuts at/next to buffer-full points) against the one-Write-per-segment baseline; any dependence of the compression points on call sizes shows as a byte difference. Exploration over generated inputs at every runnable acceleration level.",
+        "note": "No oracle beyond fastgo itself is needed (metamorphic); assumes determinism of a single run, which C17 checks separately.",
+        "design_ref": "DESIGN.md section 4, C09",
+    },
+    "C10": {
+        "technique": "property-based testing (rapid) over Write/Flush histories; reference inflater judges the emitted prefix at every Flush",
+        "text": "At every generated Flush the bytes emitted so far are decoded by the reference inflater (must give all data so far and stop cleanly at a byte-aligned block boundary) and by the standard library (same bytes, then unexpected EOF). Covers Huffman-only, both windows, gzip and zlib, Flush first/repeated/at exact buffer-full points.",
+        "note": "Trusts the reference inflater and compress/flate|gzip|zlib readers.",
+        "design_ref": "DESIGN.md section 4, C10",
+    },
+    "C12": {
+        "technique": "model-based property testing (rapid): used-then-Reset Writer vs freshly constructed Writer, per-call transcript equality",
+        "text": "Histories are generated to leave every kind of residue (pending tokens, flushed mid-stream, closed, failed destination, gzip header fields); after Reset the per-call bytes and errors must equal a new Writer's.",
+        "note": "The fresh Writer is the model; its own correctness is C01/C10's business.",
+        "design_ref": "DESIGN.md section 4, C12",
+    },
+    "C14": {
+        "technique": "fault injection enumerated over every destination call index, driven by rapid-generated operation sequences",
+        "text": "For each generated history the destination is made to fail at every call index k (exhaustive up to 64 calls, stratified beyond) with several error values and short writes; checks error identity, stickiness, zero calls after failure, no panic, canary-guarded buffers, clean Reset, and validity of the fault-free run.",
+        "note": "Destination faults are synchronous return values of io.Writer.Write; partial writes with nil error (contract violations) are out of scope.",
+        "design_ref": "DESIGN.md section 4, C14",
+    },
+    "C16": {
+        "technique": "bounded exhaustive enumeration of call sequences plus rapid-generated longer ones, differential against the standard library's Writers",
+        "text": "Every sequence up to length 4/5 over six call kinds on 24 settings, random sequences up to 40 calls, and the constructor level domain [-5,12] are compared call by call with a twin standard-library Writer (error iff, no emission after Close unless the twin emits, no panic), and the bytes up to the first Close must be a valid container.",
+        "note": "The standard library's behaviour is the specification, as the property states; zlib's second Close re-emits its trailer in the standard library too and is therefore accepted.",
+        "design_ref": "DESIGN.md section 4, C16",
+    },
+    "C19": {
+        "technique": "property-based testing (rapid) with planted-repeat generators; validity predicate on the reference inflater's match trace",
+        "text": "Inputs are constructed so that the most recent hash candidate lies exactly at distances around the window edge and beyond 64 KiB position wrap; the maximum distance in the decoded trace must not exceed the constructor's window.",
+        "note": "Only the reference inflater can report distances; it is cross-checked against compress/flate on every stream.",
+        "design_ref": "DESIGN.md section 4, C19",
+    },
+    "C20": {
+        "technique": "property-based testing (rapid) with adversarial symbol distributions; size-bound predicate",
+        "text": "Generated uniform / near-uniform / Fibonacci-skewed / alternating inputs and periodic inputs are compressed and the output length is compared with the stated bounds; worst observed fraction of the bound is reported per setting.",
+        "note": "Bounds are the property's; decoding uses compress/flate.",
+        "design_ref": "DESIGN.md section 4, C20",
     },
 }
